@@ -41,7 +41,8 @@ DisagreeCode(A, B) == {a.name : a \in {x \in A : \E b \in B : x.name = b.name /\
 \* every class of the reference is still there
 Missing(Ref, Tree) == {r.name : r \in {x \in Ref : ~\E t \in Tree : t.name = x.name}}
 \* decoding dispatches each (vendor, code) to that class: D is a set of [name, to]
-DispatchBad(D) == {d.name : d \in {x \in D : x.name # x.to}}
+\* (want: the class the bytes must be dispatched to - the class itself, or the generic AVP for a (vendor, code) nobody defines)
+DispatchBad(D) == {d.name : d \in {x \in D : x.want # x.to}}
 
 ----------------------------------------------------------------------------
 (* Typed commands *)
